@@ -26,6 +26,7 @@ type c18Case struct {
 }
 
 type c18Read struct {
+	Armed   bool  `json:"armed,omitempty"` // readp: an interrupt was pending before Read was called
 	Blocked bool  `json:"blocked"`
 	Data    []int `json:"data"`
 	Err     int   `json:"err"` // 0 nil, 1 EOF, 2 ErrInterrupted, 3 other
@@ -111,6 +112,7 @@ func c18Scripted(c *c18Case) c18Result {
 	intr := make(chan struct{})
 	r.SetInterrupt(intr)
 	next := 0
+	closedW := false
 	var lastBuf []byte
 	var out c18Result
 	for _, op := range c.Ops {
@@ -127,6 +129,7 @@ func c18Scripted(c *c18Case) c18Result {
 			}
 		case "close":
 			w.Close()
+			closedW = true
 		case "read":
 			buf := make([]byte, op.N)
 			var n int
@@ -145,7 +148,46 @@ func c18Scripted(c *c18Case) c18Result {
 				intr <- struct{}{}
 				<-done
 			}
-			out.Reads = append(out.Reads, c18Read{blocked, toInts(buf[:n]), errCode(err)})
+			out.Reads = append(out.Reads, c18Read{false, blocked, toInts(buf[:n]), errCode(err)})
+		case "readp":
+			// a Read called while an interrupt is ALREADY pending (somebody is blocked sending on the interrupt channel). Only armed
+			// when nothing is queued and the writer has not closed: then the outcome does not depend on which ready arm a select picks
+			// (carry left: the data is returned and the interrupt stays pending; no carry: the read is interrupted).
+			armed := len(ch) == 0 && !closedW
+			cancel := make(chan struct{})
+			sent := make(chan struct{})
+			if armed {
+				go func() {
+					select {
+					case intr <- struct{}{}:
+					case <-cancel:
+					}
+					close(sent)
+				}()
+				synctest.Wait()
+			}
+			buf := make([]byte, op.N)
+			var n int
+			var err error
+			done := make(chan struct{})
+			go func() {
+				n, err = r.Read(buf)
+				close(done)
+			}()
+			synctest.Wait()
+			blocked := false
+			select {
+			case <-done:
+			default:
+				blocked = true
+				intr <- struct{}{}
+				<-done
+			}
+			if armed {
+				close(cancel)
+				<-sent
+			}
+			out.Reads = append(out.Reads, c18Read{armed, blocked, toInts(buf[:n]), errCode(err)})
 		}
 	}
 	return out
